@@ -105,7 +105,9 @@ Finish ==
      /\ bad' = ReportAll(bad, scn, l, <<
           <<~IllegalTrans(g.state, Ev.trans), "C05.LegalTransition">>,
           <<~(due /\ g.state # "tripped" /\ det /\ cnd /\ ~tripped), "C18.TripWhenConditionHolds">>,
-          <<~(tripped /\ (~(due \/ tie) \/ g.state = "tripped" \/ (det /\ ~cnd))), "C18.NoSpuriousTrip">> >>)
+          <<~(tripped /\ (~(due \/ tie) \/ g.state = "tripped" \/ (det /\ ~cnd))), "C18.NoSpuriousTrip">>,
+          \* the fallback period is over: what comes next is the recovery ramp, not a new fallback period started by a late completion
+          <<~(tripped /\ g.state = "tripped" /\ now >= g.shield), "C12.RecoveryBegins">> >>)
      /\ g' = ApplyTrans(g, Ev.trans, now, cfg)
      /\ gresp' = IF tripped THEN <<>> ELSE gr1
      /\ gnext' = IF due THEN now + cfg.check ELSE gnext
